@@ -237,7 +237,63 @@ func matchParenAt(s string, i int) int {
 var encMu sync.Mutex
 
 // dischargeAll solves obligations in parallel.
-func dischargeAll(obls []*Obl, dir string, timeout time.Duration, cross bool, par int) map[*Obl]SolveResult {
+func dischargeAll(obls0 []*Obl, dir string, timeout time.Duration, cross bool, par int) map[*Obl]SolveResult {
+	// obligations with parts are solved part by part and recombined
+	var obls []*Obl
+	partOf := map[*Obl]*Obl{}
+	for _, o := range obls0 {
+		if len(o.Parts) == 0 || o.Trivial {
+			obls = append(obls, o)
+			continue
+		}
+		for _, p := range o.Parts {
+			if p.Cond == "true" {
+				continue
+			}
+			c := *o
+			c.Parts = nil
+			c.PC, c.Cond = p.PC, p.Cond
+			obls = append(obls, &c)
+			partOf[&c] = o
+		}
+	}
+	res0 := dischargeParts(obls, dir, timeout, cross, par)
+	res := map[*Obl]SolveResult{}
+	for _, o := range obls0 {
+		if len(o.Parts) > 0 && !o.Trivial {
+			res[o] = SolveResult{Status: "unsat", Solver: "parts"}
+		}
+	}
+	for _, o := range obls {
+		r := res0[o]
+		parent, isPart := partOf[o]
+		if !isPart {
+			res[o] = r
+			continue
+		}
+		cur := res[parent]
+		cur.Seconds += r.Seconds
+		switch {
+		case cur.Status == "sat":
+		case r.Status == "sat":
+			sec := cur.Seconds
+			cur = r
+			cur.Seconds = sec
+		case r.Status == "unsat":
+			if cur.Solver == "parts" {
+				cur.Solver = r.Solver
+			}
+		default:
+			if cur.Status == "unsat" {
+				cur.Status, cur.Output, cur.File = r.Status, r.Output, r.File
+			}
+		}
+		res[parent] = cur
+	}
+	return res
+}
+
+func dischargeParts(obls []*Obl, dir string, timeout time.Duration, cross bool, par int) map[*Obl]SolveResult {
 	res := map[*Obl]SolveResult{}
 	var mu sync.Mutex
 	sem := make(chan struct{}, par)
